@@ -205,6 +205,17 @@ func ReuseWAL(cfg *config.Config, dir string, nextSeq uint64) (*WAL, error) {
 		return nil, nil
 	}
 
+	// Appending behind a truncated or corrupt record would hide the new
+	// records from every later replay, so such a file is left as it is and
+	// the caller starts a new one
+	if !endsCleanly(latestWAL) {
+		file.Close()
+		if !DisableRecoveryLogs {
+			fmt.Printf("Latest WAL file is damaged, not reusing it: %s\n", latestWAL)
+		}
+		return nil, nil
+	}
+
 	if !DisableRecoveryLogs {
 		fmt.Printf("Reusing existing WAL file: %s with next sequence %d\n",
 			latestWAL, nextSeq)
@@ -223,6 +234,22 @@ func ReuseWAL(cfg *config.Config, dir string, nextSeq uint64) (*WAL, error) {
 	}
 
 	return wal, nil
+}
+
+// endsCleanly reports whether every record of the WAL file can be read, up to
+// the very end of the file
+func endsCleanly(path string) bool {
+	reader, err := OpenReader(path)
+	if err != nil {
+		return false
+	}
+	defer reader.Close()
+
+	for {
+		if _, err := reader.ReadEntry(); err != nil {
+			return err == io.EOF
+		}
+	}
 }
 
 // Append adds an entry to the WAL
